@@ -202,6 +202,25 @@ class Check(FormulaCheck):
             g = self.ev('GEOMEAN(%s)' % txt)
             ref = math.exp(sum(math.log(x) for x in pos) / len(pos))
             self.expect('C11/GEOMEAN:differs-from-definition', finite(g) and abs(g - ref) <= 1e-9 * max(1, ref) + float(data_tolerance(pos)), items=pos, got=g, expected=ref)
+            if rnd.random() < 0.25:
+                # many large items, many tiny ones, or both extremes mixed in sorted order: the mean is an ordinary number although the running
+                # product (or the sum of reciprocals) is not
+                kind = rnd.choice(['large', 'tiny', 'mixed-sorted', 'mixed-reversed'])
+                m_ = rnd.randint(30, 40)
+                if kind == 'large':
+                    big = [rnd.uniform(5e7, 9e9) for _ in range(m_)]
+                elif kind == 'tiny':
+                    big = [rnd.uniform(1e-12, 9e-9) for _ in range(m_)]
+                else:
+                    big = sorted([10.0 ** rnd.uniform(150, 200) for _ in range(3)] + [10.0 ** rnd.uniform(-200, -150) for _ in range(3)], reverse=(kind == 'mixed-reversed'))
+                self.e.bind(v_big=big)
+                refb = math.exp(sum(math.log(x) for x in big) / len(big))
+                g = self.ev('GEOMEAN(v_big)')
+                self.expect('C11/GEOMEAN:differs-from-definition:extreme-magnitudes', finite(g) and abs(g - refb) <= 1e-9 * refb, kind=kind, items=big[:6], got=g, expected=refb)
+                g = self.ev('HARMEAN(v_big)')
+                refh = len(big) / sum(1 / Fr(x) for x in big)
+                self.expect('C11/HARMEAN:differs-from-definition:extreme-magnitudes', finite(g) and abs(Fr(g) - refh) <= Fr(1, 10 ** 9) * refh, kind=kind, items=big[:6], got=g, expected=float(refh))
+                rec.nt(('means-extreme', kind, tuple(big[:3])))
             txt, _ = self.render(pos, rnd)
             g = self.ev('HARMEAN(%s)' % txt)
             self.expect('C11/HARMEAN:differs-from-definition', near(g, len(pos) / sum(1 / Fr(x) for x in pos), data_tolerance(pos)), items=pos, got=g)
